@@ -59,18 +59,9 @@ func showEnts(es []ent) string {
 
 const urlPrefix = "http://h.test/"
 
-func mkReq(id string, tag int) *http.Request {
-	req, err := http.NewRequest("GET", urlPrefix+id+"/"+strconv.Itoa(tag), nil)
-	if err != nil {
-		panic(err)
-	}
-	return req
-}
+func mkReq(id string, tag int) *http.Request { return mkReqMsg(id, tag, plainMsg, nil, nil).req }
 
-func mkRes(tag int) *http.Response {
-	return &http.Response{StatusCode: 1000 + tag, Proto: "HTTP/1.1", ProtoMajor: 1, ProtoMinor: 1,
-		Header: http.Header{}, Body: http.NoBody}
-}
+func mkRes(tag int) *http.Response { return mkResMsg(tag, plainMsg, nil, nil).res }
 
 // readEntry reads what the harness put into the request URL / response status back out of an
 // exported entry. withRes=false leaves the Response field alone (concurrent Export, see conc.go).
@@ -199,35 +190,93 @@ func (s *sess) count(k string) {
 	}
 }
 
+// setOpt applies one SetOption call. which = post | body; form = all 0|1, only <cts>, skip <cts>.
+func setOpt(l *har.Logger, which, form string, cts []string) bool {
+	var o har.Option
+	switch which + " " + form {
+	case "post all0":
+		o = har.PostDataLogging(false)
+	case "post all1":
+		o = har.PostDataLogging(true)
+	case "post only":
+		o = har.PostDataLoggingForContentTypes(cts...)
+	case "post skip":
+		o = har.SkipPostDataLoggingForContentTypes(cts...)
+	case "body all0":
+		o = har.BodyLogging(false)
+	case "body all1":
+		o = har.BodyLogging(true)
+	case "body only":
+		o = har.BodyLoggingForContentTypes(cts...)
+	case "body skip":
+		o = har.SkipBodyLoggingForContentTypes(cts...)
+	default:
+		return false
+	}
+	l.SetOption(o)
+	return true
+}
+
 // apply runs one operation on the real Logger; returns the canonical observation and the
-// oracle verdict.
-func (s *sess) apply(kind, id string) (impl, fail, sig string) {
+// oracle verdict. The oracle goes by what the call returned: a RecordRequest / RecordResponse
+// that returned an error recorded nothing, one that returned nil recorded its message.
+func (s *sess) apply(kind, id string, m msg) (impl, fail, sig string) {
 	t := s.t
 	s.t++
 	g := s.g
 	switch kind {
 	case "req":
-		err := s.l.RecordRequest(id, mkReq(id, t))
+		b := mkReqMsg(id, t, m, nil, nil)
+		if !b.ok {
+			s.t--
+			return "bad-op", "", ""
+		}
+		err := s.l.RecordRequest(id, b.req)
+		impl = classify(err, b, m)
 		present := g.find(id) >= 0
 		if err != nil {
-			impl = "err dup"
+			if impl == "err msg" {
+				s.count("req:message-error")
+				if present {
+					s.count("req:message-error-on-live-id")
+				}
+				return impl, "", "" // nothing recorded; later exports must not show it
+			}
 			s.count("req:dup-rejected")
 			if !present {
 				return impl, fmt.Sprintf("request with fresh id %s rejected: %v", id, err), "req:fresh-rejected"
 			}
 			return impl, "", ""
 		}
-		impl = "ok"
 		if present {
 			return impl, fmt.Sprintf("duplicate request id %s accepted", id), "req:dup-accepted"
 		}
 		s.count("req:accepted")
+		if m.fault != 'n' {
+			s.count("req:accepted-unread-faulty-body")
+		}
 		g.live = append(g.live, ent{id, t, -1})
 	case "res":
-		err := s.l.RecordResponse(id, mkRes(t))
-		impl = "ok"
+		b := mkResMsg(t, m, nil, nil)
+		if !b.ok {
+			s.t--
+			return "bad-op", "", ""
+		}
+		err := s.l.RecordResponse(id, b.res)
+		impl = classify(err, b, m)
 		if err != nil {
-			return "err", fmt.Sprintf("RecordResponse(%s): %v", id, err), "res:error"
+			if m.fault == 'n' {
+				return "err", fmt.Sprintf("RecordResponse(%s): %v", id, err), "res:error"
+			}
+			impl = "err msg"
+			s.count("res:message-error")
+			if i := g.find(id); i >= 0 && g.live[i].rs < 0 {
+				s.count("res:message-error-on-pending-id")
+			}
+			return impl, "", "" // nothing recorded: the entry keeps the state it had
+		}
+		if m.fault != 'n' {
+			s.count("res:attached-unread-faulty-body")
 		}
 		if i := g.find(id); i >= 0 {
 			if g.live[i].rs >= 0 {
@@ -307,20 +356,51 @@ func (s *sess) apply(kind, id string) (impl, fail, sig string) {
 }
 
 // letterOp decodes the compact alphabet of `seq` (kept in step with Drv/C17.lean charOp).
-func letterOp(c byte) (kind, id string, ok bool) {
+// 1 2 3 = response for a b c whose body reader fails, 4 5 6 = framed request for a b c whose body
+// reader fails, - / + = post-data and body logging off / on.
+func letterOp(c byte) (kind, id string, m msg, ok bool) {
 	switch {
 	case c == 'e':
-		return "export", "", true
+		return "export", "", plainMsg, true
 	case c == 'x':
-		return "xreset", "", true
+		return "xreset", "", plainMsg, true
 	case c == 'r':
-		return "reset", "", true
+		return "reset", "", plainMsg, true
+	case c >= '1' && c <= '3':
+		return "res", string('a' + c - '1'), msg{fault: 'r'}, true
+	case c >= '4' && c <= '6':
+		return "req", string('a' + c - '4'), msg{framed: true, fault: 'r'}, true
+	case c == '-':
+		return "optoff", "", plainMsg, true
+	case c == '+':
+		return "opton", "", plainMsg, true
 	case c >= 'a' && c <= 'z':
-		return "req", string(c), true
+		return "req", string(c), plainMsg, true
 	case c >= 'A' && c <= 'Z':
-		return "res", string(c + 32), true
+		return "res", string(c + 32), plainMsg, true
 	}
-	return "", "", false
+	return "", "", plainMsg, false
+}
+
+func (s *sess) applyOpt(which, form, arg string) core.Result {
+	var cts []string
+	if form == "all" {
+		form += arg
+	} else if arg != "-" {
+		for _, h := range strings.Split(arg, ",") {
+			b, ok := core.Unhex(h)
+			if !ok {
+				return core.Result{Impl: "bad-op"}
+			}
+			cts = append(cts, string(b))
+		}
+	}
+	if !setOpt(s.l, which, form, cts) {
+		return core.Result{Impl: "bad-op"}
+	}
+	s.t++
+	s.count("opt:" + which + "-" + strings.TrimRight(form, "01"))
+	return core.Result{Impl: "ok"}
 }
 
 func runSeq(w string) core.Result {
@@ -328,11 +408,17 @@ func runSeq(w string) core.Result {
 	outs := make([]string, 0, len(w))
 	var fail, sig string
 	for i := 0; i < len(w); i++ {
-		k, id, ok := letterOp(w[i])
+		k, id, m, ok := letterOp(w[i])
 		if !ok {
 			return core.Result{Impl: "bad-op"}
 		}
-		o, f, sg := s.apply(k, id)
+		if k == "optoff" || k == "opton" {
+			s.l.SetOption(har.PostDataLogging(k == "opton"), har.BodyLogging(k == "opton"))
+			s.t++
+			outs = append(outs, "ok")
+			continue
+		}
+		o, f, sg := s.apply(k, id, m)
 		outs = append(outs, o)
 		if f != "" && fail == "" {
 			fail, sig = fmt.Sprintf("history %q, op %d (%s %s): %s", w, i, k, id, f), sg
@@ -365,10 +451,28 @@ func (e *ex) Do(op string) core.Result {
 	case f[0] == "alias" && len(f) == 1:
 		return runAlias()
 	case (f[0] == "req" || f[0] == "res") && len(f) == 2:
-		impl, fail, sig := e.s.apply(f[0], f[1])
+		impl, fail, sig := e.s.apply(f[0], f[1], plainMsg)
 		return core.Result{Impl: impl, Fail: fail, Sig: sig}
+	case f[0] == "reqm" && len(f) == 5 && (f[2] == "0" || f[2] == "1"):
+		ct, ok1 := core.Unhex(f[3])
+		ft, ok2 := parseMsgFault(f[4])
+		if !ok1 || !ok2 {
+			return core.Result{Impl: "bad-op"}
+		}
+		impl, fail, sig := e.s.apply("req", f[1], msg{framed: f[2] == "1", ctype: string(ct), fault: ft})
+		return core.Result{Impl: impl, Fail: fail, Sig: sig}
+	case f[0] == "resm" && len(f) == 4:
+		ct, ok1 := core.Unhex(f[2])
+		ft, ok2 := parseMsgFault(f[3])
+		if !ok1 || !ok2 {
+			return core.Result{Impl: "bad-op"}
+		}
+		impl, fail, sig := e.s.apply("res", f[1], msg{ctype: string(ct), fault: ft})
+		return core.Result{Impl: impl, Fail: fail, Sig: sig}
+	case f[0] == "opt" && (len(f) == 4) && (f[1] == "post" || f[1] == "body"):
+		return e.s.applyOpt(f[1], f[2], f[3])
 	case (f[0] == "export" || f[0] == "xreset" || f[0] == "reset") && len(f) == 1:
-		impl, fail, sig := e.s.apply(f[0], "")
+		impl, fail, sig := e.s.apply(f[0], "", plainMsg)
 		return core.Result{Impl: impl, Fail: fail, Sig: sig}
 	}
 	return core.Result{Impl: "bad-op"}
@@ -419,17 +523,21 @@ func (P) Nontrivial(ops []string, impl []string) bool {
 		if f[0] == "seq" && len(f) == 2 {
 			var ks []string
 			for j := 0; j < len(f[1]); j++ {
-				k, _, _ := letterOp(f[1][j])
+				k, _, _, _ := letterOp(f[1][j])
 				ks = append(ks, k)
 			}
 			scan(ks, strings.Split(impl[i], "|"))
 			continue
 		}
 		if f[0] == "conc" {
-			nt = nt || strings.HasPrefix(impl[i], "conc ok")
+			nt = nt || strings.HasPrefix(impl[i], "lin ")
 			continue
 		}
-		kinds = append(kinds, f[0])
+		k := f[0]
+		if k == "reqm" {
+			k = "req"
+		}
+		kinds = append(kinds, k)
 		outs = append(outs, impl[i])
 	}
 	scan(kinds, outs)
